@@ -552,6 +552,37 @@ var jsCorpus = &corpus{
 	},
 }
 
+func jsParseEntry(which int) func(ctx context.Context, in string, rec *recorder) (string, error) {
+	return func(ctx context.Context, in string, rec *recorder) (string, error) {
+		l := func(t js.NodeType, off, end int) { rec.Event(int(t), 0, off, end) }
+		eh := func(se js.SyntaxError) bool { return rec.ErrH(se.Line, se.Offset, se.Endoffset) }
+		var s js.TokenStream
+		s.Init(in, l)
+		s.SetDialect(js.Typescript)
+		var p js.Parser
+		p.Init(eh, l)
+		if which == 0 {
+			return "", p.ParseTypeSnippet(ctx, &s)
+		}
+		return "", p.ParseNamespaceNameSnippet(ctx, &s)
+	}
+}
+
+var jsTypeCorpus = &corpus{
+	prologue: "X",
+	sep:      "\n",
+	items: []string{
+		"| Foo<Bar>", "| (a: A) => B", "| { a: number; b?: string }", "| [a: string, b?: number]", "& C", "| D[]", "| keyof E", "| typeof f",
+		"| { [K in keyof T]: T[K] }", "| (new (x: X) => Y)", "| G<H<I>, J>", "| 'lit'", "| 42", "| (K | L)[]",
+	},
+}
+
+var jsNsCorpus = &corpus{
+	prologue: "a",
+	sep:      "",
+	items:    []string{".b", ".cde", ". f", ".g1", ".$h", "._i"},
+}
+
 var jsExprCorpus = &corpus{
 	prologue: "0",
 	sep:      "\n",
@@ -680,6 +711,10 @@ func initTargets() {
 	jsCorpus.events = eventsWith(jsParse)
 	jsExprCorpus.events = eventsWith(jsParseExpr)
 	testCorpus.events = eventsWith(testParse)
+	jsTypeCorpus.events = eventsWith(jsParseEntry(0))
+	jsNsCorpus.events = eventsWith(jsParseEntry(1))
+	droppedItems["jstype"] = jsTypeCorpus.validate(jsTokenEnds, okWith(jsParseEntry(0)))
+	droppedItems["jsns"] = jsNsCorpus.validate(jsTokenEnds, okWith(jsParseEntry(1)))
 	droppedItems["tm"] = tmCorpus.validate(tmTokenEnds, okWith(tmParseWith(false)))
 	droppedItems["js"] = jsCorpus.validate(jsTokenEnds, okWith(jsParse))
 	droppedItems["jsexpr"] = jsExprCorpus.validate(jsTokenEnds, okWith(jsParseExpr))
@@ -698,6 +733,12 @@ func initTargets() {
 	}
 	if len(jsExprCorpus.items) > 0 {
 		register(&Target{Name: "js.Parser.ParseExpressionSnippet", Parse: jsParseExpr, TokenEnds: jsTokenEnds, Gen: jsExprCorpus.gen, HasEH: true, Events: true, Lookaheads: true, Weight: 6})
+	}
+	if len(jsTypeCorpus.items) > 0 {
+		register(&Target{Name: "js.Parser.ParseTypeSnippet", Parse: jsParseEntry(0), TokenEnds: jsTokenEnds, Gen: jsTypeCorpus.gen, HasEH: true, Events: true, Lookaheads: true, Weight: 4})
+	}
+	if len(jsNsCorpus.items) > 0 {
+		register(&Target{Name: "js.Parser.ParseNamespaceNameSnippet", Parse: jsParseEntry(1), TokenEnds: jsTokenEnds, Gen: jsNsCorpus.gen, HasEH: true, Events: true, Weight: 2})
 	}
 	if len(testCorpus.items) > 0 {
 		register(&Target{Name: "test.Parser.ParseTest", NewSession: testSession, Parse: testParse, TokenEnds: testTokenEnds, Gen: testCorpus.gen, Events: true, Lookaheads: true, Weight: 14})
